@@ -1,7 +1,8 @@
 (* MODELS: tsmem *)
 (* Driver for the extracted pointer-level model Files/TsMem.v (the Touchstone loader's own buffers in the
    checked-memory monad).  One command per line, the format of harness/tstone_mem.c:
-     mts K NAME HEX|-  ->  MEM rc errno | REQ n | FREED ref,text,vv | LIVE n      or   FAULT <kind>
+     mts K NAME HEX|-  ->  MEM rc errno | REQ n | FREED ref,text,vv | LIVE n | DEST type rows cols freqs filetype fz0 fprec dprec
+                           or   FAULT <kind>     (DEST: Files/LoadFail.v, the destination of the harness after the recorded calls)
      mnp K NAME HEX|-  ->  MEM rc errno | REQ n | FREED z0,fields,text | LIVE n   (Files/TsMemNpd.v, variant NFixed)
    K > 0: the K-th request of the parser fails (start (Some (K-1))).  REQ = blocks handed out + the failed request.
    Glue (trusted): conversions between OCaml ints / Zarith and the extracted N, Z, positive, nat. *)
@@ -24,6 +25,17 @@ let optz = function None -> "-" | Some z -> ZZ.to_string (z_of_coqz z)
 let faultname = function
   | M.OOB -> "OOB" | M.UseUninit -> "UseUninit" | M.UseAfterFree -> "UseAfterFree" | M.NullDeref -> "NullDeref"
   | M.IntOverflow -> "IntOverflow" | M.VlaBound -> "VlaBound"
+let name_ft (name : string) : int =
+  let n = String.length name in
+  let suf = match String.rindex_opt name '.' with Some i -> String.lowercase_ascii (String.sub name (i + 1) (n - i - 1)) | None -> "" in
+  if suf = "ts" then 2 else if suf = "npd" then 3
+  else if String.length suf >= 3 && suf.[0] = 's' && suf.[String.length suf - 1] = 'p' then 1 else 0
+let coqz_of_int (x : int) : M.z = if x = 0 then M.Z0 else if x > 0 then M.Zpos (pos_of_int x) else M.Zneg (pos_of_int (- x))
+let dest_string_of (((((((t, r), c), f), ft), pf), fp), dp) : string =
+  Printf.sprintf "DEST %s %d %d %d %s %d %s %s" (ZZ.to_string (z_of_coqz t)) (int_of_nat r) (int_of_nat c) (int_of_nat f)
+    (ZZ.to_string (z_of_coqz ft)) (if pf then 1 else 0) (ZZ.to_string (z_of_coqz fp)) (ZZ.to_string (z_of_coqz dp))
+let dest_string (name : string) (calls : M.dop list) : string = dest_string_of (M.ts_digest (coqz_of_int (name_ft name)) calls)
+let ndest_string (name : string) (calls : M.ndop list) : string = dest_string_of (M.npd_digest (coqz_of_int (name_ft name)) calls)
 let eclass = function M.EBADMSG -> "EBADMSG" | M.ENOPROTOOPT -> "ENOPROTOOPT" | M.EINVAL -> "EINVAL" | M.EINTERNAL -> "EINTERNAL"
 
 let () =
@@ -32,7 +44,7 @@ let () =
       let line = input_line stdin in
       (match List.filter (fun s -> s <> "") (String.split_on_char ' ' (String.trim line)) with
        | ["case"; id] -> print_string ("CASE " ^ id)
-       | ["mts"; k; _name; hex] ->
+       | ["mts"; k; name; hex] ->
          let k = int_of_string k in
          let s0 = M.start (if k > 0 then Some (nat_of_int (k - 1)) else None) in
          (match M.mem_load_ts (bytes_of_hex hex) s0 with
@@ -44,9 +56,10 @@ let () =
               | M.MOk _ -> "0 0"
               | M.MErr c -> "-1 " ^ eclass c
               | M.MENOMEM -> "-1 ENOMEM" in
-            print_string (Printf.sprintf "MEM %s | REQ %d | FREED %s,%s,%s | LIVE %d" rc req
-                            (optz rep.M.r_ref) (optz rep.M.r_text) (optz rep.M.r_vv) (List.length (M.live s))))
-       | ["mnp"; k; _name; hex] ->
+            print_string (Printf.sprintf "MEM %s | REQ %d | FREED %s,%s,%s | LIVE %d | %s" rc req
+                            (optz rep.M.r_ref) (optz rep.M.r_text) (optz rep.M.r_vv) (List.length (M.live s))
+                            (dest_string name rep.M.r_calls)))
+       | ["mnp"; k; name; hex] ->
          let k = int_of_string k in
          let s0 = M.start (if k > 0 then Some (nat_of_int (k - 1)) else None) in
          (match M.mem_load_npd M.NFixed (bytes_of_hex hex) s0 with
@@ -58,8 +71,9 @@ let () =
               | M.NMOk -> "0 0"
               | M.NMErr c -> "-1 " ^ (match c with M.NEBADMSG -> "EBADMSG" | M.NEINVAL -> "EINVAL" | M.NEINTERNAL -> "EINTERNAL")
               | M.NMENOMEM -> "-1 ENOMEM" in
-            print_string (Printf.sprintf "MEM %s | REQ %d | FREED %s,%s,%s | LIVE %d" rc req
-                            (optz rep.M.nr_z0) (optz rep.M.nr_fld) (optz rep.M.nr_text) (List.length (M.live s))))
+            print_string (Printf.sprintf "MEM %s | REQ %d | FREED %s,%s,%s | LIVE %d | %s" rc req
+                            (optz rep.M.nr_z0) (optz rep.M.nr_fld) (optz rep.M.nr_text) (List.length (M.live s))
+                            (ndest_string name rep.M.nr_calls)))
        | _ -> print_string ("? " ^ line));
       print_newline ()
     done
